@@ -158,6 +158,11 @@ def check_built(r, k, mask):
                     r.trans += 1
                     if st3 == 'ok':
                         wf_check(r, a4, k, 'adjacency_matrix_to_accessor%s' % ('' if dt is None else '-' + np.dtype(dt).name), case)
+    if st == 'ok':
+        # the graph handed to the conversions is still the graph that was built
+        wf_check(r, acc, k, 'accessor-after-it-was-passed-to-the-conversions', case)
+        if U.rows(acc) != O.from_mask(mask, k):
+            r.v('C13|built-graph|changed-by-a-conversion', 'built', case)
     for t in (1, 2, 3):
         st, res, _ = brun(dsw.connect_coding_graph, observed_length=k, vertices=m.copy(), threshold=t,
                           lim=2000000)
@@ -168,6 +173,34 @@ def check_built(r, k, mask):
             except Exception:
                 continue
             wf_check(r, acc, k, 'connect_coding_graph-t%d' % t, case)
+
+
+def check_stray(r, k, u, pattern, w):
+    """A matrix row with legal arcs (pattern) plus a stray 1 in column w: whatever the conversion does,
+    it must not hand back a graph with an entry that is neither -1 nor the successor."""
+    import dsw
+    n = 4 ** k
+    M = np.zeros((n, n), dtype=int)
+    s_ = O.succ(u, k)
+    for j in range(4):
+        if pattern >> j & 1:
+            M[u, s_[j]] = 1
+    M[u, w] = 1
+    st, res, _ = brun(dsw.adjacency_matrix_to_accessor, M)
+    r.trans += 1
+    r.evals += 1
+    r.states += 1
+    if st == 'ok':
+        wf_check(r, res, k, 'adjacency_matrix_to_accessor-on-a-matrix-with-a-stray-arc', {'k': k, 'u': u, 'pattern': pattern, 'w': w, 'stray': True})
+    else:
+        r.ctr['stray_rejected'] += 1
+
+
+def _w_stray(chunk):
+    r = core.Res()
+    for k, u, p_, w in chunk:
+        check_stray(r, k, u, p_, w)
+    return r
 
 
 def boundary_family(k):
@@ -203,6 +236,8 @@ def check_case(r, kind, case):
         check_vertex(r, case['k'], case['v'])
     elif kind == 'complete':
         check_complete(r, case['k'])
+    elif kind == 'built' and case.get('stray'):
+        check_stray(r, case['k'], case['u'], case['pattern'], case['w'])
     elif kind == 'complete_big':
         check_complete_big(r, case['k'])
     elif kind == 'built':
@@ -280,6 +315,15 @@ def run(ctx):
     ctx.pmap(_w_list, fam)
     ctx.pmap(_w_complete, list(range(1, (7 if ctx.quick else 8) + 1)))
     ctx.pmap(_w_complete_big, [9, 10] if ctx.quick else [9, 10, 11])
+    stray = []
+    for k in (2, 3):
+        for u in range(4 ** k):
+            blk = set(O.succ(u, k))
+            for w in range(4 ** k):
+                if w not in blk and (k == 2 or (u + w) % 5 == 0):
+                    for p_ in (1, 6, 8, 15):
+                        stray.append((k, u, p_, w))
+    ctx.pmap(_w_stray, core.chunks_of(stray, 400))
     bf = built_family(ctx.quick)
     ctx.pmap(_w_built, core.chunks_of(bf, 40))
     ctx.bounds = {'all_vertices_k': [1, kmax], 'boundary_family_k': [10, 11, 12],
